@@ -44,6 +44,7 @@ impl Weekday {
     /// Max: last weekday <=> `Sunday`, used only for conversion to/from u8.
     const MAX: u8 = 7;
     /// Trivial, but avoid magic numbers.
+    #[allow(dead_code)]
     pub(crate) const DAYS_PER_WEEK: f64 = 7.0;
     /// Trivial, but avoid magic numbers.
     pub(crate) const DAYS_PER_WEEK_I128: i128 = 7;
